@@ -132,12 +132,24 @@ def with_context(n):
     return out
 
 
+def _terminating(stmts) -> bool:
+    return bool(stmts) and isinstance(stmts[-1], (ast.Return, ast.Raise, ast.Continue, ast.Break))
+
+
 def guards(n):
-    """[(test expr, branch)] of the if/while/ifexp/boolop conditions under which n executes,
-    innermost first, up to the enclosing function. branch is True (body) / False (orelse)."""
+    """[(test expr, branch)] of the conditions under which n executes, innermost first, up to the enclosing function:
+    enclosing if/while/ifexp/boolop conditions (branch True = body, False = orelse) AND guard clauses - an earlier
+    sibling `if c: ...; return/raise/continue/break` (no else) contributes (c, False)."""
     out = []
     cur = n
     for a in ancestors(n):
+        # guard clauses among the preceding siblings of `cur` in the block that contains it
+        for fname in ("body", "orelse", "finalbody"):
+            blk = getattr(a, fname, None)
+            if isinstance(blk, list) and any(x is cur for x in blk):
+                for sib in blk[: next(i for i, x in enumerate(blk) if x is cur)]:
+                    if isinstance(sib, ast.If) and not sib.orelse and _terminating(sib.body):
+                        out.append((sib.test, False))
         if isinstance(a, (ast.FunctionDef, ast.AsyncFunctionDef, ast.Lambda)):
             break
         if isinstance(a, (ast.If, ast.While, ast.IfExp)):
@@ -153,6 +165,32 @@ def guards(n):
                     out.append((v, isinstance(a.op, ast.And)))
         cur = a
     return out
+
+
+def conds(n):
+    """guards(n) flattened to a set of normalised literals: 'c' for c known true, 'not c' for c known false, with
+    `not not`, and-conjunctions under True and or-disjunctions under False split."""
+    out = set()
+
+    def add(t, pos):
+        if isinstance(t, ast.UnaryOp) and isinstance(t.op, ast.Not):
+            add(t.operand, not pos)
+        elif isinstance(t, ast.BoolOp) and isinstance(t.op, ast.And) and pos:
+            for v in t.values:
+                add(v, True)
+        elif isinstance(t, ast.BoolOp) and isinstance(t.op, ast.Or) and not pos:
+            for v in t.values:
+                add(v, False)
+        else:
+            out.add(norm(t) if pos else "not " + _paren(t))
+    for t, b in guards(n):
+        add(t, b)
+    return out
+
+
+def _paren(t):
+    s = norm(t)
+    return s if isinstance(t, (ast.Name, ast.Attribute, ast.Call, ast.Subscript, ast.Constant)) else f"({s})"
 
 
 def names_loaded(node) -> set[str]:
@@ -249,3 +287,24 @@ def rename(node, mapping: dict[str, str]):
         elif isinstance(x, ast.Attribute) and x.attr in mapping:
             x.attr = mapping[x.attr]
     return n2
+
+
+def value_cases(node, value=None):
+    """[(set of condition literals, value expr)]: conds(node) extended by the tests of conditional expressions the
+    value is made of (`x = a if c else b` yields two cases)."""
+    base = conds(node)
+    v = value if value is not None else getattr(node, "value", None)
+    out = []
+
+    def rec(e, cs):
+        if isinstance(e, ast.IfExp):
+            t = norm(e.test)
+            neg = "not " + _paren(e.test)
+            if isinstance(e.test, ast.UnaryOp) and isinstance(e.test.op, ast.Not):
+                neg = norm(e.test.operand)
+            rec(e.body, cs | {t})
+            rec(e.orelse, cs | {neg})
+        else:
+            out.append((cs, e))
+    rec(v, set(base))
+    return out
